@@ -24,6 +24,9 @@ pub enum Edit {
     Break(u8),
     /// send the current text again
     Resend,
+    /// point every import statement of the file at another module (same form, same level): the
+    /// names the file binds stay the same, what it re-exports changes
+    Retarget(u8),
 }
 
 #[derive(Clone, Debug, Serialize, Deserialize, PartialEq)]
@@ -61,6 +64,7 @@ pub fn edit(cfg: &GenCfg) -> BoxedStrategy<Edit> {
         2 => Just(Edit::SetImports(Vec::new())),
         3 => (0u8..3).prop_map(Edit::Break),
         1 => Just(Edit::Resend),
+        2 => (1u8..4).prop_map(Edit::Retarget),
     ]
     .boxed()
 }
@@ -185,6 +189,18 @@ impl Interp {
                     for im in imps {
                         st.items.insert(0, Item::Import(im.clone()));
                     }
+                }
+            }
+            Edit::Retarget(k) => {
+                let mut any = false;
+                for it in st.items.iter_mut() {
+                    if let Item::Import(im) = it {
+                        im.module = 1 + (im.module - 1 + *k) % STDLIB_NAMED_HELPER;
+                        any = true;
+                    }
+                }
+                if !any {
+                    st.items.insert(0, Item::Import(ImportSpec { form: ImportForm::Star, module: 1 + *k % 3, level: 1 }));
                 }
             }
             Edit::Break(_) => valid = false,
